@@ -84,6 +84,8 @@ def gen_scenario(rng, cfg):
             k += 1
             kind = rng.choice(["plain", "plain", "plain", "space", "repeat"])
             text = gen_line(rng, k)
+            if cfg.get("repeat_texts") and rng.chance(50):
+                text = "D%d=same" % rng.below(3)      # the same line submitted again later (not immediately)
             if kind == "space" and rng.chance(40):
                 text = "B%d=!!" % k     # refers to the previous command; still must not be recorded
             ops.append({"op": "type", "shell": sh, "text": text, "kind": kind})
@@ -103,8 +105,16 @@ def gen_scenario(rng, cfg):
                 pat = rng.choice(["H", "%", "_", "a", "ü", ")", "1", "x%y", "'", "a'b"] if cfg.get("hostile_patterns", True)
                                  else ["H", "a", "1", "x%y"])
             ops.append({"op": "list", "asc": rng.chance(50), "pattern": pat, "limit": rng.choice([1000, 1000, 3])})
+        elif r < 82:
+            d = rng.choice(DIRS if cfg.get("hostile_dirs", True) else DIRS[:1])
+            ops.append({"op": "cd", "shell": sh, "dir": d})
+            if rng.chance(50):
+                # work in that directory, then ask for its history
+                k += 1
+                ops.append({"op": "type", "shell": sh, "text": gen_line(rng, k), "kind": "plain"})
+                ops.append({"op": "listp", "dir": d})
         elif r < 84:
-            ops.append({"op": "cd", "shell": sh, "dir": rng.choice(DIRS if cfg.get("hostile_dirs", True) else DIRS[:1])})
+            ops.append({"op": "listp", "dir": rng.choice(DIRS)})
         elif r < 88:
             ops.append({"op": "newshell"})
         elif r < 91:
@@ -289,9 +299,24 @@ class C18Runner:
         self.extra_sims.append(sim)
         self.ev("restart-shell", i)
         self.to_prompt(new, first=True)
+        self.model_dedupe()
         return new
 
     # ------------------------------------------------------------------ oracle
+    def model_dedupe(self):
+        """what an interactive shell does to the file when it starts (unless HISTORY_DELETE_DUPS=0):
+        of several rows with the same text only the newest is kept"""
+        if not self.sc.get("dedup"):
+            return
+        last = {}
+        for r in self.rows:
+            last[r["text"]] = r
+        before = len(self.rows)
+        self.rows = [r for r in self.rows if last[r["text"]] is r]
+        if len(self.rows) != before:
+            self.sim.probe("duplicates_purged_at_shell_start")
+        self.check_db("the duplicate purge of a starting shell")
+
     def db_rows(self):
         if not os.path.exists(self.hfile):
             return []
@@ -355,11 +380,11 @@ class C18Runner:
             rows = rows[-limit:] if limit < len(rows) else rows
         return [r["text"] for r in rows]
 
-    def run_oneshot(self, args_line):
+    def run_oneshot(self, args_line, cwd=None):
         env = dict(os.environ)
         env.update({"HISTORY_FILE": self.hfile, "HOME": self.root, "PATH": "/usr/bin:/bin", "HISTORY_DELETE_DUPS": "0"})
         env.pop("CICADA_VERIF_CTL", None)
-        p = subprocess.run([CICADA_BIN, "-c", args_line], cwd=os.path.join(self.dirs, "plain"), env=env,
+        p = subprocess.run([CICADA_BIN, "-c", args_line], cwd=cwd or os.path.join(self.dirs, "plain"), env=env,
                            stdin=subprocess.DEVNULL, stdout=subprocess.PIPE, stderr=subprocess.PIPE, timeout=WATCHDOG)
         return p.returncode, p.stdout.decode(errors="replace"), p.stderr.decode(errors="replace")
 
@@ -397,9 +422,10 @@ class C18Runner:
             sh = self.restart(sh)
         return sh
 
-    def add_row(self, text, tsb, maybe=False):
+    def add_row(self, text, tsb, maybe=False, cwd=None):
         self.seq += 1
-        row = {"text": text, "tsb": tsb, "seq": self.seq, "rowid": None}
+        row = {"text": text, "tsb": tsb, "seq": self.seq, "rowid": None,
+               "dir": cwd or os.path.join(self.dirs, "plain")}
         if maybe:
             self.maybe.append(row)
         else:
@@ -420,6 +446,7 @@ class C18Runner:
                 self.extra_sims.append(sim)
                 self.ev("start-shell", sh.idx)
                 self.to_prompt(sh, first=True)
+                self.model_dedupe()
                 self.sim.probe("second_or_third_shell_on_the_same_database")
             return
         if k == "clock":
@@ -445,10 +472,10 @@ class C18Runner:
                 self.sim.probe("immediate_repeat")
                 if sh.unrecorded_since:
                     # an unrecorded line sits between the two identical lines: both readings are accepted
-                    self.add_row(text, tsb_guess, maybe=True)
+                    self.add_row(text, tsb_guess, maybe=True, cwd=sh.cwd)
                 self.check_db("an immediate repeat")
                 return
-            self.add_row(text, tsb_guess)
+            self.add_row(text, tsb_guess, cwd=sh.cwd)
             sh.prev = text
             sh.unrecorded_since = False
             self.check_db("typing a line in shell %d" % sh.idx)
@@ -475,7 +502,8 @@ class C18Runner:
                 out = sh.pty.text_since_mark()
                 if "error" in out.lower():
                     raise Violation("recording_failed", "`%s` printed %r" % (cmd[:60], out.strip()[-120:]))
-            self.add_row(text.strip(), ts if ts is not None else 0.0)
+            self.add_row(text.strip(), ts if ts is not None else 0.0,
+                         cwd=None if op["via"] == "oneshot" else sh.cwd)
             if ts is not None and any(r["tsb"] == ts for r in self.rows[:-1]):
                 self.sim.probe("equal_timestamps")
             if ts is None and sum(1 for r in self.rows if r["tsb"] == 0.0) > 1:
@@ -529,6 +557,28 @@ class C18Runner:
             if pat:
                 self.sim.probe("pattern_search_checked")
             return
+        if k == "listp":
+            if not os.path.exists(self.hfile):
+                return
+            d = os.path.join(self.dirs, op["dir"])
+            cmd = "history -n -a -p -l 1000"
+            self.ev("list-pwd", op["dir"])
+            rc, out, err = self.run_oneshot(cmd, cwd=d)
+            if "error" in (out + err).lower():
+                raise Violation("listing_failed", "`%s` in directory %r printed %r" % (cmd, op["dir"], (out + err).strip()[:160]))
+            got = out.split("\n")
+            if got and got[-1] == "":
+                got.pop()
+            rows = [r for r in self.rows if like("dir:%s|" % d, "dir:%s|" % r["dir"])]
+            rows.sort(key=lambda r: (r["tsb"], r["seq"]))
+            want = [r["text"] for r in rows]
+            if got != want:
+                raise Violation("listing_failed", "`%s` in directory %r lists %d rows %s, expected %d rows %s" % (
+                    cmd, op["dir"], len(got), [g[:16] for g in got][:5], len(want), [w[:16] for w in want][:5]))
+            self.sim.probe("listing_by_directory_checked")
+            if op["dir"] != "plain" and want:
+                self.sim.probe("listing_by_hostile_directory_nonempty")
+            return
         if k == "cd":
             sh = self.shell_for(op["shell"])
             d = os.path.join(self.dirs, op["dir"])
@@ -556,8 +606,8 @@ class C18Runner:
             self.pump(a, lambda w: w[0] == "done")       # A has started (start stamp taken) and is held
             tb = self.clock + 1e-3
             self.type_and_run(b, op["inner"])
-            self.add_row(op["text"], ta)
-            self.add_row(op["inner"], tb)
+            self.add_row(op["text"], ta, cwd=a.cwd)
+            self.add_row(op["inner"], tb, cwd=b.cwd)
             b.prev = op["inner"]
             b.unrecorded_since = False
             a.sim.shell_go()
@@ -577,10 +627,10 @@ class C18Runner:
             self.type_and_run(sh, text, kill_at=op["at"])
             if op["at"] == "prompt":
                 # the shell had returned to its prompt: the line must be there
-                self.add_row(text, tsb_guess)
+                self.add_row(text, tsb_guess, cwd=sh.cwd)
                 self.sim.probe("kill_at_prompt_after_recording")
             else:
-                self.add_row(text, tsb_guess, maybe=True)
+                self.add_row(text, tsb_guess, maybe=True, cwd=sh.cwd)
                 self.sim.probe("kill_between_execution_and_recording")
             self.check_db("killing shell %d at %s" % (sh.idx, op["at"]))
             return
@@ -615,10 +665,10 @@ def _execute(cls, sc, picks=None, rng=None, keep_log=False):
 
 
 CONFIGS = {
-    "plain": ({"max_ops": 14}, 60),
+    "plain": ({"max_ops": 14}, 50),
     "kills": ({"max_ops": 10, "kills": True}, 25),
-    "dedup_on": ({"max_ops": 8, "dedup": True, "kills": False}, 0),
-    "long": ({"max_ops": 24}, 15),
+    "dedup_on": ({"max_ops": 14, "dedup": True, "kills": True, "repeat_texts": True}, 12),
+    "long": ({"max_ops": 24}, 13),
 }
 
 TIERS = {"quick": 1000, "thorough": 12000}
